@@ -165,6 +165,16 @@ impl DcpsDomainParticipant {
         datareader_handle: &InstanceHandle,
         runtime: &impl DdsRuntime,
     ) -> DdsResult<()> {
+        let belongs_to_other_subscriber = self
+            .domain_participant
+            .user_defined_subscriber_list
+            .iter()
+            .filter(|x| &x.instance_handle != subscriber_handle)
+            .any(|x| {
+                x.data_reader_list
+                    .iter()
+                    .any(|r| &r.instance_handle == datareader_handle)
+            });
         let Some(subscriber) = self
             .domain_participant
             .user_defined_subscriber_list
@@ -181,6 +191,10 @@ impl DcpsDomainParticipant {
         {
             let data_reader = subscriber.data_reader_list.remove(index);
             self.announce_deleted_data_reader(data_reader, runtime);
+        } else if belongs_to_other_subscriber {
+            return Err(DdsError::PreconditionNotMet(String::from(
+                "Data reader can only be deleted from its parent subscriber",
+            )));
         } else {
             return Err(DdsError::AlreadyDeleted);
         };
